@@ -61,7 +61,13 @@ impl MsgHeader {
             mtype,
             seq: rng.u16(),
             date: rng.range(2, 40000) as u16,
-            time: rng.below(86_400_000) as u32,
+            // midnight exactly and the last millisecond of the day are legal times of day
+            time: match rng.below(12) {
+                0 => 0,
+                1 => 86_399_999,
+                2 => 1,
+                _ => rng.below(86_400_000) as u32,
+            },
             seg_count: if variable { 0 } else { 1 },
             seg_num: if variable { rng.u16() } else { 1 },
         }
